@@ -96,6 +96,11 @@ def t_binary(op, a, b):
             return (REJ, None)
         if a == "U" or b == "U":
             return (UNS, concrete(a))
+        if a == "n" and b != "n":
+            # accepted, but whether the result still adapts like a literal or has become an int is
+            # not settled by the documentation: kind "nI" makes every judgement that depends on it
+            # unspecified (see _merge)
+            return (OK, "nI")
         return (OK, a)      # (I|n) by (I|n)
     if op in ("==", "!="):
         if u == "related":
@@ -166,6 +171,24 @@ def t_cast(k, target):
     return (REJ, None)
 
 
+def _alts(k):
+    return ("n", "I") if k == "nI" else (k,)
+
+
+def _merge(results):
+    """Combines the judgements of the alternatives of an ambiguous kind."""
+    vs = {v for v, _ in results}
+    if len(vs) > 1:
+        return (UNS, None)
+    v = vs.pop()
+    ks = {k for _, k in results}
+    if len(ks) == 1:
+        return (v, ks.pop())
+    if ks <= {"n", "I", "nI"}:
+        return (v, "nI")
+    return (UNS, None)
+
+
 def typeof(e):
     """e: ('leaf', kind, text) | ('un', op, e) | ('bin', op, l, r) | ('tern', c, a, b) |
     ('as', e, target) -> (verdict, kind)"""
@@ -176,7 +199,7 @@ def typeof(e):
         v, k = typeof(e[2])
         if v != OK:
             return (v, None)
-        return t_unary(e[1], k)
+        return _merge([t_unary(e[1], x) for x in _alts(k)])
     if tag == "bin":
         vl, kl = typeof(e[2])
         vr, kr = typeof(e[3])
@@ -184,19 +207,19 @@ def typeof(e):
             return (REJ, None)
         if UNS in (vl, vr):
             return (UNS, None)
-        return t_binary(e[1], kl, kr)
+        return _merge([t_binary(e[1], x, y) for x in _alts(kl) for y in _alts(kr)])
     if tag == "tern":
         rs = [typeof(x) for x in e[1:4]]
         if any(v == REJ for v, _ in rs):
             return (REJ, None)
         if any(v == UNS for v, _ in rs):
             return (UNS, None)
-        return t_ternary(rs[0][1], rs[1][1], rs[2][1])
+        return _merge([t_ternary(c, x, y) for c in _alts(rs[0][1]) for x in _alts(rs[1][1]) for y in _alts(rs[2][1])])
     if tag == "as":
         v, k = typeof(e[1])
         if v != OK:
             return (v, None)
-        return t_cast(k, e[2])
+        return _merge([t_cast(x, e[2]) for x in _alts(k)])
     raise KeyError(tag)
 
 
